@@ -57,9 +57,16 @@ def surface_position(
     lat_even_s = lat_even_n - 90
     lat_odd_s = lat_odd_n - 90
 
-    # chose which solution corrispondes to receiver location
-    lat_even = lat_even_n if lat_ref > 0 else lat_even_s
-    lat_odd = lat_odd_n if lat_ref > 0 else lat_odd_s
+    # chose which solution corrispondes to receiver location, i.e. the one
+    # closest to the receiver (receiver and target can be across the equator)
+    if abs(lat_ref - lat_even_n) <= abs(lat_ref - lat_even_s):
+        lat_even = lat_even_n
+    else:
+        lat_even = lat_even_s
+    if abs(lat_ref - lat_odd_n) <= abs(lat_ref - lat_odd_s):
+        lat_odd = lat_odd_n
+    else:
+        lat_odd = lat_odd_s
 
     # check if both are in the same latidude zone, rare but possible
     if common.cprNL(lat_even) != common.cprNL(lat_odd):
